@@ -33,3 +33,54 @@ def ENCB(v, j):
     if j == 2:
         return 0xFE if v < 64009 else (v // 64009) % 253 + 1
     return 0xFE if v < 16194277 else (v // 16194277) % 253 + 1
+
+
+def T(c, flip):
+    """Per-byte reflection of the EO string encoding: identity outside 0x22..0x7E; inside, 0x9F - c,
+    shifted by -/+0x2E on 'flip' positions (below / from 0x50)."""
+    if c < 0x22 or c > 0x7E:
+        return c
+    if not flip:
+        return 0x9F - c
+    if c >= 0x50:
+        return 0x9F - c + 0x2E
+    return 0x9F - c - 0x2E
+
+
+def flipAt(i, n):
+    return (n + i) % 2 == 1
+
+
+def srcI(n, j):
+    """interleave: output position j of an n-byte buffer takes input position srcI(n, j)."""
+    if j % 2 == 0:
+        return j // 2
+    return n - 1 - j // 2
+
+
+def srcD(n, k):
+    """deinterleave: output position k takes input position srcD(n, k)."""
+    if 2 * k < n:
+        return 2 * k
+    return 2 * (n - k) - 1
+
+
+def FLIP(b):
+    """flip_msb on one byte: toggles bit 7 unless the low seven bits are all zero."""
+    if b % 128 == 0:
+        return b
+    if b < 128:
+        return b + 128
+    return b - 128
+
+
+def M(v, m):
+    return v % m == 0
+
+
+def Run(x, m, a, b):
+    """[a, b) is a maximal run of multiples of m in x."""
+    return (0 <= a and a < b and b <= len(x)
+            and all(M(x[k], m) for k in range(a, b))
+            and (a == 0 or not M(x[a - 1], m))
+            and (b == len(x) or not M(x[b], m)))
